@@ -214,7 +214,37 @@ def _l7_qflag(n: int, m0: int, m1: int, m2: int, q0: bool, q1: bool, q2: bool, u
     return all((x.is_read1, x.is_read2) == b for x, b in zip(recs, before) if x.is_paired)
 
 
+def _l0_contigs_with_reads(n: int, m0: int, u0: int, m1: int, u1: int, m2: int, u2: int, su: int, with_length: bool) -> bool:
+    """
+    pre: 0 <= n <= 3
+    pre: 0 <= m0 <= 2 and 0 <= u0 <= 2 and 0 <= m1 <= 2 and 0 <= u1 <= 2 and 0 <= m2 <= 2 and 0 <= u2 <= 2
+    pre: 0 <= su <= 2
+    post: _
+    """
+    # the real get_contigs_with_reads over the text `samtools idxstats` prints (contig, length, #mapped, #unmapped-but-placed; last line '*'):
+    # every contig that holds ANY record - also one with only unmapped, placed records - must be listed, in file order
+    import types
+    import singlecellmultiomics.bamProcessing.bamFunctions as BFm
+    C = [0, 1, 7]
+    rows = [('chrA', 5000, pick(C, m0), pick(C, u0)), ('chrB', 200000, pick(C, m1), pick(C, u1)), ('chrC', 31, pick(C, m2), pick(C, u2))][:n]
+    star_unmapped = pick(C, su)
+    text = ''.join('%s\t%d\t%d\t%d\n' % r for r in rows) + '*\t0\t0\t%d\n' % star_unmapped
+    real = BFm.pysam
+    BFm.pysam = types.SimpleNamespace(idxstats=lambda path: text)
+    try:
+        got = list(BFm.get_contigs_with_reads('in.bam', with_length))
+    finally:
+        BFm.pysam = real
+    want = [((r[0], r[1]) if with_length else r[0]) for r in rows if r[2] > 0 or r[3] > 0]
+    if star_unmapped > 0:
+        want.append(('*', 0) if with_length else '*')
+    return got == want
+
+
 LEMMAS = [
+    dict(name='L0_contigs_with_reads', fn='_l0_contigs_with_reads', engine='E1', timeout=_T, replay='replay.C05:replay',
+         cases={'quick': [dict(id='n%d' % k, pre=['n == %d' % k] + ['m%d == 0' % i for i in range(k, 3)] + ['u%d == 0' % i for i in range(k, 3)]) for k in (0, 1, 2)] +
+                         [dict(id='n3_m%d_%s' % (m, 'len' if w else 'name'), pre=['n == 3', 'm0 == %d' % m, 'with_length == %s' % bool(w)]) for m in (0, 1, 2) for w in (0, 1)]}),
     dict(name='L1_contig_jobs', fn='_l1_contig_jobs', engine='E1', timeout=_T, replay='replay.C05:replay',
          cases={'quick': [dict(id='n%d' % n, pre=['n == %d' % n]) for n in (0, 1, 2, 3, 4)],
                 'thorough': [dict(id='n%d' % n, pre=['n == %d' % n]) for n in (0, 1, 2, 3, 4, 5)]}),
@@ -233,7 +263,7 @@ LEMMAS = [
 ]
 
 PROPERTY = dict(
-    functions=['bamtagmultiome.tag_multiome_multi_processing: `if one_contig_per_process:` block and its else branch (AST cut, E3)',
+    functions=['bamFunctions.get_contigs_with_reads', 'bamtagmultiome.tag_multiome_multi_processing: `if one_contig_per_process:` block and its else branch (AST cut, E3)',
                'bamBinCounts.blacklisted_binning_contigs / blacklisted_binning', 'utils.binning.bp_chunked',
                'molecule.iterator.MoleculeIterator.__iter__', 'bamtagmultiome.tag_multiome_single_thread (read-group collection)', 'tagging.run_tagging_task', 'tagging.run_tagging_tasks (job bookkeeping: a job that wrote records keeps its output)',
                'molecule.iterator.ReadIterator.__next__ + Fragment.__init__ / FragmentStartPosition + MoleculeIterator(every_fragment_as_molecule) (-method qflag)'],
@@ -245,7 +275,7 @@ PROPERTY = dict(
     outside=['htslib preserving name/sequence/qualities/position/CIGAR; coordinate sort; index; samtools merge; header re-write',
              'pysamiterators.MatePairIterator dropping secondary/supplementary records', 'true parallel scheduling (results are combined by a multiset union)',
              'skip_contigs / contig selection options'],
-    assumptions=['get_contigs_with_reads yields (contig, length) pairs as samtools idxstats lists them, with an optional (*, 0) entry',
+    assumptions=['samtools idxstats prints one line per contig (name, length, mapped, unmapped-but-placed) and a final * line (L0 runs the real get_contigs_with_reads over such text; L1 takes its output as input)',
                  'stub fragment/molecule classes passed through the public MoleculeIterator / run_tagging_task APIs',
                  'composition L1/L2 (every region processed once) + L3 (no fragment lost inside a region) + L4 (no molecule lost on write) + C08 is a paper argument',
                  'float cut in blacklisted_binning: %r' % (_CUTS,)],
